@@ -131,13 +131,20 @@ type State struct {
 	inLoops map[*ssa.BasicBlock]bool // loop headers already cut on this path
 	depth   int
 	trace   []string
+	splits  int
+	phiFrom []phiSrc // set on a merged state: which predecessor each arrival came from
+}
+
+type phiSrc struct {
+	guard *smt.Term
+	from  *ssa.BasicBlock
 }
 
 func (s *State) clone() *State {
 	n := &State{
 		heap: make(map[string]*smt.Term, len(s.heap)), cells: make(map[*ssa.Alloc]Val, len(s.cells)),
 		env: make(map[ssa.Value]Val, len(s.env)), origin: make(map[ssa.Value]*Addr, len(s.origin)),
-		inLoops: make(map[*ssa.BasicBlock]bool, len(s.inLoops)), depth: s.depth,
+		inLoops: make(map[*ssa.BasicBlock]bool, len(s.inLoops)), depth: s.depth, splits: s.splits, phiFrom: s.phiFrom,
 	}
 	for k, v := range s.heap {
 		n.heap[k] = v
